@@ -14,6 +14,8 @@ import DimModel.Lib.Align
 import DimModel.Lib.Axes
 import DimModel.Lib.Transform
 import DimModel.Lib.Missing
+import DimModel.Lib.Operation
+import DimModel.Lib.Join
 namespace DimModel
 namespace DSV
 open Lib
@@ -160,6 +162,121 @@ def takeDs {α} (ds : Ds α) (name : String) (ix : Ix) (cfg : IndexCfg) : Except
           setItem acc kv.1 r
         else setItem acc kv.1 item) start
     pure { out with attrs := ds.attrs }
+
+/-! ### round 5: reductions, arithmetic, stack_ds / concatenate_ds, copy (new mirrors) -/
+
+/-- `DimArray(scalar)`: how `Dataset.__init__` wraps a value that is not a DimArray (a 1-D variable reduced along
+its only dimension is a NumPy scalar): no axes, no metadata -/
+def scalarVar {α} (c : α) (vk : Kind) : DimArray α :=
+  { axes := [], vals := { shape := [], get := fun _ => c }, vkind := vk, attrs := [] }
+
+/-- what `getattr(self[k], funcname)(axis=name)` returns for a reduction (`mean`, `sum`, ...), as `Dataset(dict)`
+sees it: `DimArray.<reduction>(axis=name)` (`Lib.reduceAxis`), a scalar result being wrapped by `DimArray(scalar)` -/
+def reduceVarDs {α} (red : List α → α) (name : String) (v : DimArray α) : Except Err (DimArray α) := do
+  let r ← reduceAxis red v (.one (.name name))
+  match r with
+  | .inl c => pure (scalarVar c v.vkind)
+  | .inr a => pure a
+
+/-- `Dataset.mean / std / var / median / sum (axis=name)` = `_apply_dimarray_axis(funcname, axis=name)` -/
+def reduceDs {α} (nan : α) (red : List α → α) (ds : Ds α) (name : String) : Except Err (Ds α) :=
+  applyAxis nan ds name (reduceVarDs red name)
+
+/-- the right operand of a Dataset operator, as `Dataset._binary_op` classifies it -/
+inductive Operand (α : Type) where
+  | ds (o : Ds α)       -- `isinstance(other, Dataset)`
+  | scalar (c : α)      -- `isscalar(other)` (np.isscalar)
+  | other               -- anything else (a DimArray, an ndarray, a list): the assertion fails
+
+/-- `other.axes != self.axes`: `Axes` is a list, compared element by element with `Axis.__eq__` -/
+def axesNe (a b : List Axis) : Bool :=
+  a.length != b.length || (a.zip b).any fun p => !(axisEq p.1 p.2)
+
+/-- `Dataset.reindex_like(other)` = `reindex_like(self, other)` of core/align.py: `Dataset.reindex_axis` (defaults:
+fill_value=nan, raise_error=False, method=None) along every axis of `self` whose name the template has -/
+def reindexLikeDs {α} (nan : α) (ds : Ds α) (tmpl : List Axis) : Except Err (Ds α) :=
+  ds.axes.foldlM (fun obj ax =>
+    match tmpl.find? (·.name == ax.name) with
+    | some t => reindexAxisDs obj ax.name t.labels t.kind nan .f
+    | none => pure obj) ds
+
+/-- `Dataset._binary_op(func, other)` (op.reindex = True).  `other.reindex_like(self)` is evaluated for its
+exceptions only: its result is dropped by the Python code (the per-variable `DimArray._binary_op` aligns again).
+For two Datasets the result holds the keys of `self` that `other` has as well (double loop over the keys). -/
+def binaryOpDs {α} (nan : α) (f : α → α → α) (self : Ds α) (rhs : Operand α) : Except Err (Ds α) :=
+  match rhs with
+  | .other => .error .assertion
+  | .scalar c =>
+    self.vars.foldlM (fun (res : Ds α) kv1 => do
+      let r ← operationNd f kv1.2 { shape := [], get := fun _ => c } false
+      setItem res kv1.1 r) {}
+  | .ds o => do
+    -- align all axes first
+    if axesNe o.axes self.axes then
+      let _ ← reindexLikeDs nan o self.axes
+    -- now proceed to operation
+    self.vars.foldlM (fun (res : Ds α) kv1 =>
+      o.vars.foldlM (fun (res : Ds α) kv2 =>
+        if kv1.1 == kv2.1 then do
+          let r ← operation nan f kv1.2 kv2.2
+          setItem res kv1.1 r.1
+        else pure res) res) {}
+
+/-- `sorted(ds.keys()) == sorted(variables)` (keys of a dict: the sorted lists agree iff one is a rearrangement of
+the other) -/
+def sameKeys (a b : List String) : Bool := a.isPerm b
+
+/-- `[ds[v] for ds in datasets]` (KeyError for a missing variable) -/
+def gather {α} (datasets : List (Ds α)) (v : String) : Except Err (List (DimArray α)) :=
+  datasets.mapM fun ds => match ds.get? v with
+    | some a => pure a
+    | none => .error .key
+
+/-- `stack_ds(datasets, axis, keys, align=False)`: the new dimension is checked against the dimensions of all
+Datasets, the Datasets must hold the same variables, every variable is `stack`ed (align=False) with the same keys
+and stored through `__setitem__` -/
+def stackDs {α} [Inhabited α] (nan : α) (datasets : List (Ds α)) (axis : Option String) (keys : List Label)
+    (keyKind : Kind) : Except Err (Ds α) := do
+  -- make sure the stacking dimension is ok
+  let dims := getDims (datasets.map (·.axes))
+  let name ← checkStackAxis axis dims
+  -- find the list of variables common to all datasets
+  let variables ← datasets.foldlM (fun (vs : Option (List String)) (ds : Ds α) =>
+      if ds.dims.contains name then (.error .assertion : Except Err (Option (List String))) else
+      match vs with
+      | none => pure (some ds.keys)
+      | some v => if sameKeys ds.keys v then pure (some v) else .error .assertion) none
+  match variables with
+  | none => .error .type          -- `for v in None`
+  | some vars =>
+    -- Compute stacked dataset
+    vars.foldlM (fun (res : Ds α) v => do
+      let arrays ← gather datasets v
+      let array ← stack nan arrays (some name) keys keyKind false false
+      setItem res v array) {}
+
+/-- `concatenate_ds(datasets, axis, align=False)`: the Datasets must hold the same variables; every variable is
+`concatenate`d (align=False) along `axis` - a name, or a position *in the variable* - and stored through
+`__setitem__`; a variable that lacks the dimension makes `concatenate` raise -/
+def concatenateDs {α} (nan : α) (datasets : List (Ds α)) (axis : DimKey) : Except Err (Ds α) := do
+  -- find the list of variables common to all datasets
+  let variables ← datasets.foldlM (fun (vs : Option (List String)) (ds : Ds α) =>
+      match vs with
+      | none => (pure (some ds.keys) : Except Err (Option (List String)))
+      | some v => if sameKeys ds.keys v then pure (some v) else .error .assertion) none
+  match variables with
+  | none => .error .type          -- `for v in None`
+  | some vars =>
+    -- Compute concatenated dataset
+    vars.foldlM (fun (res : Ds α) v => do
+      let arrays ← gather datasets v
+      let array ← concatenate nan arrays axis false false
+      setItem res v array) {}
+
+/-- `Dataset.copy()`: `Dataset({k: v})` of the variables, then the metadata -/
+def copyDs {α} (nan : α) (ds : Ds α) : Except Err (Ds α) := do
+  let ds2 ← fromVars nan ds.vars
+  pure { ds2 with attrs := Attrs.update ds2.attrs ds.attrs }
 
 /-- the shared-axes rule by value: every variable's axis for a dimension carries the Dataset's labels for it,
 and the Dataset's dimensions are exactly those used -/
